@@ -8,6 +8,7 @@ import Model.C08.Parse
 import Model.C08.Core
 import Model.C08.Verify
 import Model.C08.Btclib
+import Model.C08.BtclibTap
 import Proofs.C08.Sim
 import Generated.Script
 open Btc Btc.Script
@@ -201,6 +202,21 @@ def handleC08 : List String → String
         | .refused => "err script"
         | .unsupported => "unsupported"
     | _, _, _, _, _, _ => "bad-op"
+  -- the btclib-shaped model of `verify_script_path_vc0`:
+  --   bttap <flags> <script> <stack bottom-first> <locktime> <sequence> <version> <budget> <oracle>
+  -- (the queries are collected by running Core's ExecuteWitnessScript on the same line first, as for `bteval`)
+  | ["bttap", flags, script, stack, lockTime, sequence, version, weight, oracle] =>
+    match parseFlags flags, fromHex? script, parseHexList stack, lockTime.toNat?, sequence.toNat?, version.toNat?, parseInt? weight with
+    | some fl, some sc, some st, some lt, some sq, some ver, some w =>
+      let checker := mkChecker (parseOracle oracle)
+      let cx : Btclib.Ctx := { flags := fl, segwit := true, hashes := hashes, txLockTime := lt, txSequence := sq,
+                               txVersion := ver, checker := checker }
+      let env : Core.VerifyEnv := { flags := fl, hashes := hashes, checker := checker, taggedHash := Btc.taggedHash,
+                                    commitment := fun _ _ _ => .ok false, txLockTime := lt, txSequence := sq, txVersion := ver }
+      match Core.executeWitnessScript env st.reverse sc .TAPSCRIPT w with
+      | .error (.NEED_ORACLE q) => s!"need {q}"
+      | _ => if BtclibTap.verifyScriptPath cx sc st.reverse w then "ok" else "err"
+    | _, _, _, _, _, _, _ => "bad-op"
   | _ => "bad-op"
 
 def handle (toks : List String) : String :=
